@@ -639,6 +639,14 @@ class KEval:
             lp = Loop(name, ZERO, self.length_of(seqs[0]), ONE, st, "range" if isinstance(self.length_of(seqs[0]), Poly) else "enumerate")
             for t_, q_ in zip(st.target.elts, seqs):
                 self.bind_target(t_, self.element_of(q_, Poly.sym(name)), env)
+        elif isinstance(st.target, ast.Name) and self._row_selection(it, f) is not None:
+            # `for i in np.where(ROWS_WITH_A_NONZERO_ENTRY(M))[0]`  is  `for i in range(M.shape[0]): if any(M[i, :] != 0):`  - rows selected up front instead of tested in the loop
+            mname = self._row_selection(it, f)
+            mref = env.get(mname)
+            n_ = self.length_of(mref) if mref is not None else TOP
+            lp = Loop(st.target.id, ZERO, n_, ONE, st, "range" if isinstance(n_, Poly) else "enumerate")
+            env[st.target.id] = Poly.sym(st.target.id)
+            guards = guards + (Cond("rowany", mname, st.target.id, node=st),)
         else:
             seq = self.ev(it, env, S, f, guards, loops, depth)
             name = st.target.id if isinstance(st.target, ast.Name) else "<item>"
@@ -658,6 +666,59 @@ class KEval:
         else:
             env.pop("#path", None)
         return False
+
+    def _row_selection(self, it: ast.expr, f: FuncInfo) -> Optional[str]:
+        """the name M when `it` (a local read through to its definition) is the index list of the rows of the 2-D array M that hold at least one non-zero entry:
+        np.where(R)[0] / np.nonzero(R)[0] / np.flatnonzero(R)  with  R = np.sum(M != 0, axis=1) != 0 (or > 0) | np.any(M != 0, axis=1) | (M != 0).any(axis=1) |
+        np.count_nonzero(M, axis=1) != 0 (or > 0).  Anything else (a sum of the signed entries, another axis) is not such a selection."""
+        from . import wire
+        try:
+            e = wire.inline_locals(f, it)
+        except Exception:  # noqa
+            return None
+        R = None
+        if isinstance(e, ast.Subscript) and isinstance(e.slice, ast.Constant) and e.slice.value == 0 and isinstance(e.value, ast.Call) and norm_text_(e.value.func) in ("np.where", "numpy.where", "np.nonzero", "numpy.nonzero") \
+                and len(e.value.args) == 1 and not e.value.keywords:
+            R = e.value.args[0]
+        elif isinstance(e, ast.Call) and norm_text_(e.func) in ("np.flatnonzero", "numpy.flatnonzero") and len(e.args) == 1 and not e.keywords:
+            R = e.args[0]
+        if R is None:
+            return None
+
+        def axis1(c):
+            kws = {k.arg: k.value for k in c.keywords}
+            ax = kws.get("axis", c.args[1] if len(c.args) > 1 else None)
+            return isinstance(ax, ast.Constant) and ax.value == 1
+
+        def nonzero_of(x):
+            """M when x is `M != 0` (either orientation)"""
+            if isinstance(x, ast.Compare) and len(x.ops) == 1 and isinstance(x.ops[0], ast.NotEq):
+                a, b = x.left, x.comparators[0]
+                for m, z in ((a, b), (b, a)):
+                    if isinstance(m, ast.Name) and isinstance(z, ast.Constant) and z.value in (0, 0.0) and not isinstance(z.value, bool):
+                        return m.id
+            return None
+
+        def positive(x):
+            """the counted quantity Q when x is `Q != 0`, `Q > 0`, `0 < Q`, `0 != Q`"""
+            if isinstance(x, ast.Compare) and len(x.ops) == 1:
+                a, op, b = x.left, x.ops[0], x.comparators[0]
+                zero = lambda z: isinstance(z, ast.Constant) and z.value in (0, 0.0) and not isinstance(z.value, bool)
+                if zero(b) and isinstance(op, (ast.NotEq, ast.Gt)):
+                    return a
+                if zero(a) and isinstance(op, (ast.NotEq, ast.Lt)):
+                    return b
+            return None
+        q = positive(R)
+        if isinstance(q, ast.Call) and norm_text_(q.func) in ("np.sum", "numpy.sum") and q.args and axis1(q):
+            return nonzero_of(q.args[0])
+        if isinstance(q, ast.Call) and norm_text_(q.func) in ("np.count_nonzero", "numpy.count_nonzero") and q.args and axis1(q) and isinstance(q.args[0], ast.Name):
+            return q.args[0].id
+        if isinstance(R, ast.Call) and norm_text_(R.func) in ("np.any", "numpy.any") and R.args and axis1(R):
+            return nonzero_of(R.args[0])
+        if isinstance(R, ast.Call) and isinstance(R.func, ast.Attribute) and R.func.attr == "any" and axis1(ast.Call(func=R.func, args=[None] + list(R.args), keywords=R.keywords)):
+            return nonzero_of(R.func.value)
+        return None
 
     def _locals_of(self, f: FuncInfo):
         loc = getattr(f, "_assigned_locals", None)
